@@ -368,7 +368,7 @@ pub fn generate(spec: &Spec) -> (Vec<Base>, Vec<(u32, u32, Vec<Op>, String)>) {
 }
 
 pub fn default_renditions() -> Vec<Vec<u32>> {
-    vec![vec![], vec![1, 31, 44, 7]]
+    vec![vec![], vec![1, 31, 44, 7], vec![27]]
 }
 
 pub fn default_charsets() -> Vec<(bool, &'static str, &'static str)> {
